@@ -317,6 +317,9 @@ def index_lambda_to_high_level_op(expr: IndexLambda) -> HighLevelOp:
         else:
             raise UnknownIndexLambdaExpr
 
+        if len(children) != 2:
+            raise UnknownIndexLambdaExpr
+
         # pylint: disable=no-value-for-parameter
         return BinaryOp(bin_op,
                         *_as_array_or_scalar(children,
